@@ -18,9 +18,15 @@ pub enum Fault {
 	DepthLimit,
 	MemLimit,
 	Panic,
+	/// all elements valid, but the depth limit (= the position parameter) is hit at one of the
+	/// holder's own container levels
+	ContainerDepth,
+	/// all elements valid, memory limit = position parameter * 8 bytes
+	ContainerMem,
 }
 
-pub const FAULTS: [Fault; 6] = [Fault::None, Fault::Exhausted, Fault::Malformed, Fault::DepthLimit, Fault::MemLimit, Fault::Panic];
+pub const FAULTS: [Fault; 8] =
+	[Fault::None, Fault::Exhausted, Fault::Malformed, Fault::DepthLimit, Fault::MemLimit, Fault::Panic, Fault::ContainerDepth, Fault::ContainerMem];
 
 impl Fault {
 	pub fn name(&self) -> &'static str {
@@ -31,6 +37,8 @@ impl Fault {
 			Fault::DepthLimit => "depth-limit",
 			Fault::MemLimit => "mem-limit",
 			Fault::Panic => "panic-in-element",
+			Fault::ContainerDepth => "depth-limit-at-container",
+			Fault::ContainerMem => "mem-limit-at-container",
 		}
 	}
 	fn from_name(s: &str) -> Fault {
@@ -215,6 +223,8 @@ wrap_holder!(Box, BTreeMap<u8, Tracked>, "Box<BTreeMap<u8, Tracked>>");
 wrap_holder!(Box, Box<Tracked>, "Box<Box<Tracked>>");
 wrap_holder!(Box, Box<[Tracked; 3]>, "Box<Box<[Tracked; 3]>>");
 wrap_holder!(Rc, Box<[Tracked; 3]>, "Rc<Box<[Tracked; 3]>>");
+wrap_holder!(Box, Box<Box<Tracked>>, "Box<Box<Box<Tracked>>>");
+wrap_holder!(Arc, Box<Box<Tracked>>, "Arc<Box<Box<Tracked>>>");
 
 impl Holder for Option<Tracked> {
 	const NAME: &'static str = "Option<Tracked>";
@@ -483,12 +493,13 @@ impl Holder for [Vec<Tracked>; 2] {
 }
 
 /// One execution: decode `H` from an input with `n` elements whose element `pos` carries `fault`.
-/// Returns Err(detail) if the ledger shows a leak, a double drop or a wrong hand-over.
+/// Returns Err(detail) if the ledger shows a leak, a double drop or a wrong hand-over, or if heap
+/// memory allocated during the call is still live after everything was dropped.
 pub fn one<H: Holder>(n: usize, pos: usize, fault: Fault) -> Result<&'static str, String> {
 	let total = H::elems(n);
 	let mut cmds: Vec<u8> = (0..total).map(|i| (i % 100) as u8 + 1).collect();
-	let mut truncate_at: Option<usize> = None;
-	if fault != Fault::None {
+	let container_fault = matches!(fault, Fault::ContainerDepth | Fault::ContainerMem);
+	if fault != Fault::None && !container_fault {
 		if pos >= total {
 			return Ok("n/a");
 		}
@@ -497,103 +508,120 @@ pub fn one<H: Holder>(n: usize, pos: usize, fault: Fault) -> Result<&'static str
 			Fault::Panic => cmds[pos] = CMD_PANIC,
 			Fault::DepthLimit => cmds[pos] = CMD_DEPTH,
 			Fault::MemLimit => cmds[pos] = CMD_MEM,
-			Fault::Exhausted => {
-				// mark the element, then cut the input right before it
-				cmds[pos] = 0x7e;
-			},
-			Fault::None => {},
+			Fault::Exhausted => cmds[pos] = 0x7e, // marker: the input is cut right before it
+			_ => {},
 		}
 	}
 	let mut input = H::input(&cmds);
 	if fault == Fault::Exhausted {
 		let at = input.iter().position(|b| *b == 0x7e).expect("marker present");
-		truncate_at = Some(at);
 		input.truncate(at);
 	}
-	let _ = truncate_at;
 	ledger_reset();
-	let r = guarded(|| {
-		let mut s = &input[..];
-		match fault {
-			Fault::DepthLimit => H::decode_with_depth_limit(16, &mut s),
-			Fault::MemLimit => H::decode_with_mem_limit(&mut s, 1 << 40),
-			_ => H::decode(&mut s),
+	// everything that owns memory from the decode is created and dropped inside the measured region
+	let (res, usage) = crate::alloc::measure(|| -> Result<&'static str, String> {
+		let r = guarded(|| {
+			let mut s = &input[..];
+			match fault {
+				Fault::DepthLimit => H::decode_with_depth_limit(16, &mut s),
+				Fault::MemLimit => H::decode_with_mem_limit(&mut s, 1 << 40),
+				Fault::ContainerDepth => H::decode_with_depth_limit(pos as u32, &mut s),
+				Fault::ContainerMem => H::decode_with_mem_limit(&mut s, pos * 8),
+				_ => H::decode(&mut s),
+			}
+		});
+		let (constructed, dropped, live, errors) = ledger_snapshot();
+		if !errors.is_empty() {
+			return Err(format!("ledger: {}", errors.join("; ")));
+		}
+		match r {
+			Ok(Ok(v)) => {
+				if fault != Fault::None && !container_fault {
+					return Err(format!("decode succeeded although element {} carries fault {}", pos, fault.name()));
+				}
+				let owned = v.owned() as u64;
+				if live != owned || constructed != owned + dropped {
+					return Err(format!(
+						"after a successful decode {} instances are live but the value owns {} (constructed {}, dropped {})",
+						live, owned, constructed, dropped
+					));
+				}
+				drop(v);
+				let (c2, d2, live2, errors2) = ledger_snapshot();
+				if !errors2.is_empty() {
+					return Err(format!("ledger after dropping the value: {}", errors2.join("; ")));
+				}
+				if live2 != 0 || c2 != d2 {
+					return Err(format!("{} instances leaked after dropping the decoded value", live2));
+				}
+				Ok("ok-handed-over")
+			},
+			Ok(Err(_)) => {
+				if fault == Fault::None {
+					return Err("decode of a valid input failed".into());
+				}
+				if live != 0 || constructed != dropped {
+					return Err(format!(
+						"decode failed at element {} ({}) but {} of {} constructed instances were not dropped",
+						pos,
+						fault.name(),
+						live,
+						constructed
+					));
+				}
+				Ok("err-all-released")
+			},
+			Err(_) => {
+				if fault != Fault::Panic {
+					return Err(format!("decode panicked under fault {}", fault.name()));
+				}
+				if live != 0 || constructed != dropped {
+					return Err(format!(
+						"element decoder panicked at element {} but {} of {} constructed instances were not dropped",
+						pos, live, constructed
+					));
+				}
+				Ok("panic-all-released")
+			},
 		}
 	});
-	let (constructed, dropped, live, errors) = ledger_snapshot();
-	if !errors.is_empty() {
-		return Err(format!("ledger: {}", errors.join("; ")));
-	}
-	let class;
-	match r {
-		Ok(Ok(v)) => {
-			if fault != Fault::None {
-				return Err(format!("decode succeeded although element {} carries fault {}", pos, fault.name()));
-			}
-			let owned = v.owned();
-			if live.len() != owned || constructed as usize != owned + dropped as usize {
-				return Err(format!(
-					"after a successful decode {} instances are live but the value owns {} (constructed {}, dropped {})",
-					live.len(),
-					owned,
-					constructed,
-					dropped
-				));
-			}
-			drop(v);
-			let (c2, d2, live2, errors2) = ledger_snapshot();
-			if !errors2.is_empty() {
-				return Err(format!("ledger after dropping the value: {}", errors2.join("; ")));
-			}
-			if !live2.is_empty() || c2 != d2 {
-				return Err(format!("{} instances leaked after dropping the decoded value", live2.len()));
-			}
-			class = "ok-handed-over";
-		},
-		Ok(Err(_)) => {
-			if fault == Fault::None {
-				return Err("decode of a valid input failed".into());
-			}
-			if !live.is_empty() || constructed != dropped {
-				return Err(format!(
-					"decode failed at element {} ({}) but {} of {} constructed instances were not dropped (live ids {:?})",
-					pos,
-					fault.name(),
-					live.len(),
-					constructed,
-					&live[..live.len().min(8)]
-				));
-			}
-			class = "err-all-released";
-		},
-		Err(_) => {
-			if fault != Fault::Panic {
-				return Err(format!("decode panicked under fault {}", fault.name()));
-			}
-			if !live.is_empty() || constructed != dropped {
-				return Err(format!(
-					"element decoder panicked at element {} but {} of {} constructed instances were not dropped",
-					pos,
-					live.len(),
-					constructed
-				));
-			}
-			class = "panic-all-released";
-		},
+	let class = res?;
+	if usage.live_end != 0 {
+		return Err(format!(
+			"{} bytes of heap memory allocated during the call were never freed (fault {} at {}; outcome {})",
+			usage.live_end,
+			fault.name(),
+			pos,
+			class
+		));
 	}
 	Ok(class)
 }
 
 fn run_holder<H: Holder>(acc: &mut Acc) {
+	// warm up the panic machinery of this thread outside any measurement
+	let _ = guarded(|| panic!("warm-up"));
 	for n in H::sizes() {
 		let total = H::elems(n);
 		for fault in FAULTS {
-			let positions: Vec<usize> = if fault == Fault::None { vec![0] } else { (0..total).collect() };
+			let positions: Vec<usize> = match fault {
+				Fault::None => vec![0],
+				// limits 0..=5 (depth) / 0..=total+4 words (memory): hit at each of the holder's own levels
+				Fault::ContainerDepth => (0..=5).collect(),
+				Fault::ContainerMem => (0..=total + 4).collect(),
+				_ => (0..total).collect(),
+			};
 			for pos in positions {
 				acc.evaluations += 1;
 				acc.transitions += 1;
 				match one::<H>(n, pos, fault) {
 					Ok("n/a") => {},
+					Ok(class) if matches!(fault, Fault::ContainerDepth | Fault::ContainerMem) => {
+						acc.states += 1;
+						acc.traces += 1;
+						acc.nontrivial += 1;
+						acc.outcome(&format!("{}:{}", fault.name(), class));
+					},
 					Ok(class) => {
 						acc.states += 1;
 						acc.traces += 1;
@@ -627,6 +655,7 @@ macro_rules! all_holders {
 		$m!(Arc<[Tracked; 3]>, $($a),*); $m!(Arc<[Tracked; 40]>, $($a),*);
 		$m!(Box<Vec<Tracked>>, $($a),*); $m!(Box<BTreeMap<u8, Tracked>>, $($a),*); $m!(Box<Box<Tracked>>, $($a),*);
 		$m!(Box<Box<[Tracked; 3]>>, $($a),*); $m!(Rc<Box<[Tracked; 3]>>, $($a),*);
+		$m!(Box<Box<Box<Tracked>>>, $($a),*); $m!(Arc<Box<Box<Tracked>>>, $($a),*);
 		$m!(Option<Tracked>, $($a),*); $m!(Result<Tracked, [Tracked; 2]>, $($a),*); $m!((Tracked, Tracked, Tracked), $($a),*);
 		$m!((Vec<Tracked>, [Tracked; 2]), $($a),*);
 		$m!(DStruct, $($a),*); $m!(DEnum, $($a),*); $m!(DEnumB, $($a),*); $m!(Transp, $($a),*); $m!(Box<Transp>, $($a),*); $m!(Transp2, $($a),*);
@@ -634,6 +663,62 @@ macro_rules! all_holders {
 		$m!(VecOf<Box<Tracked>>, $($a),*); $m!(VecOf<Transp>, $($a),*);
 		$m!([Box<[Tracked; 2]>; 3], $($a),*); $m!([Vec<Tracked>; 2], $($a),*);
 	}};
+}
+
+/// Monitor: the same enumeration in a nightly AddressSanitizer + LeakSanitizer build of this binary
+/// (without the type registry). A sanitizer report or a non-zero exit is a violation; a toolchain
+/// problem is a cap note, never a verdict.
+fn sanitizer_run(acc: &mut Acc) -> Option<String> {
+	use std::process::Command;
+	let root = verif_root();
+	let target = format!("{}/target/asan", root);
+	let build = Command::new("cargo")
+		.args(["+nightly", "build", "--release", "--offline", "--target", "x86_64-unknown-linux-gnu", "-p", "pscv", "--no-default-features"])
+		.current_dir(format!("{}/harness", root))
+		.env("RUSTFLAGS", "-Zsanitizer=address --cfg parity_scale_codec_verif")
+		.env("CARGO_TARGET_DIR", &target)
+		.output();
+	let build = match build {
+		Ok(b) => b,
+		Err(e) => return Some(format!("cannot run cargo +nightly: {}", e)),
+	};
+	if !build.status.success() {
+		let err = String::from_utf8_lossy(&build.stderr);
+		return Some(format!("sanitizer build failed: {}", err.lines().filter(|l| l.starts_with("error")).take(3).collect::<Vec<_>>().join(" | ")));
+	}
+	let scratch = format!("{}/target/asan-run", root);
+	let _ = std::fs::create_dir_all(&scratch);
+	let run = Command::new(format!("{}/x86_64-unknown-linux-gnu/release/pscv", target))
+		.args(["--child", "C10", "--tier", "quick"])
+		.env("VERIF_ROOT", &scratch)
+		.env("ASAN_OPTIONS", "detect_leaks=1:halt_on_error=1")
+		.output();
+	let run = match run {
+		Ok(r) => r,
+		Err(e) => return Some(format!("cannot run the sanitizer build: {}", e)),
+	};
+	let stderr = String::from_utf8_lossy(&run.stderr).to_string();
+	let stdout = String::from_utf8_lossy(&run.stdout).to_string();
+	let _ = std::fs::remove_dir_all(&scratch);
+	acc.evaluations += 1;
+	acc.transitions += 3572;
+	let report = stderr.contains("AddressSanitizer") || stderr.contains("LeakSanitizer");
+	if run.status.success() && !report && !stdout.contains("VIOLATION") {
+		acc.states += 1;
+		acc.traces += 1;
+		acc.nontrivial += 1;
+		acc.outcome("sanitizer-clean");
+	} else {
+		let first = stderr.lines().find(|l| l.contains("ERROR: ") || l.contains("SUMMARY: ")).unwrap_or("").to_string();
+		acc.violate(Violation {
+			property: "C10".into(),
+			sub: "C10.asan".into(),
+			key: "C10|sanitizer".into(),
+			detail: format!("the fault enumeration under AddressSanitizer/LeakSanitizer reported: {} (exit {:?})", first, run.status.code()),
+			case: json!({"sub": "C10.asan"}),
+		});
+	}
+	None
 }
 
 pub fn run(tier: Tier) -> Report {
@@ -648,9 +733,17 @@ pub fn run(tier: Tier) -> Report {
 	acc.sample(json!({"holder": "Box<[Tracked; 40]>", "elements": 40, "failing_position": 17, "fault": "panic-in-element", "expected": "17 constructed, 17 dropped, 0 live, no double drop"}));
 	rep.part(
 		"fault enumeration",
-		"every container of the instrumented element x size x every failing position 0..N x {input exhausted, malformed element, depth-limit error, mem-limit error, panic in the element decoder} + the all-succeed case: construction/drop ledger balanced",
+		"every container of the instrumented element x size x every failing position 0..N x {input exhausted, malformed element, depth-limit error, mem-limit error, panic in the element decoder} + the all-succeed case + depth limits 0..=5 and memory limits 0..=N+4 words hit at the container's own levels: construction/drop ledger balanced and no heap byte allocated during the call left live",
 		acc,
 	);
+	if tier.thorough() {
+		let mut acc = Acc::default();
+		if let Some(problem) = sanitizer_run(&mut acc) {
+			rep.caps.push(format!("sanitizer monitor not run: {}", problem));
+		} else {
+			rep.part("sanitizer monitor", "the same fault enumeration in a nightly AddressSanitizer + LeakSanitizer build: no heap error, no leak", acc);
+		}
+	}
 	rep.rule = "nested-loop enumeration of (container, N, failing position, fault kind); each case is one real decode call on a crafted input, observed through the construction/drop ledger of the element type \
 		(live instances == those owned by the returned value; none after Err/panic; no id dropped twice; heap block of each instance intact). non-trivial = failing position > 0"
 		.into();
@@ -660,6 +753,11 @@ pub fn run(tier: Tier) -> Report {
 }
 
 pub fn replay(case: &Json) -> Option<String> {
+	if case["sub"] == "C10.asan" {
+		let mut acc = Acc::default();
+		let _ = sanitizer_run(&mut acc);
+		return acc.violations.first().map(|v| v.detail.clone());
+	}
 	let name = case["holder"].as_str().unwrap().to_string();
 	let n = case["n"].as_u64().unwrap() as usize;
 	let pos = case["pos"].as_u64().unwrap() as usize;
